@@ -49,8 +49,12 @@ type handshake struct {
 	ctx byte
 	// errKind: kind of the error value a failing Read / Write returns (c01.ErrKinds, 0 plain)
 	errKind byte
-	name    string
-	steps   []exchange
+	// inside: 'r' / 'w': the context is cancelled inside the library's Read / Write number
+	// insideAt, which itself completes (see duplex.cancelRd); 0: not used
+	inside   byte
+	insideAt int
+	name     string
+	steps    []exchange
 	run     func(ctx context.Context, c net.Conn) (*xmpp.Session, error)
 }
 
@@ -75,6 +79,59 @@ type duplex struct {
 	budget  int  // bytes the peer may still deliver (-1 unlimited)
 	sent    int
 	cutHit  bool // the budget ended the peer's stream
+	// cancellation *inside* an I/O operation that itself completes: when the Read / Write with
+	// this index has its data, the context is cancelled (fire), the harness waits until the
+	// library's watcher has moved both deadlines into the past (<= 1 s), the operation returns
+	// its data without an error, and the peer is silent from then on (muted: what it writes is
+	// dropped). Whatever the library does next on the connection - inside a feature's own step -
+	// must find the deadline the watcher installed.
+	cancelRd, cancelWr int
+	fire               func()
+	muted              bool
+	fired              bool
+	// the I/O operations the library started after that cancellation: direction (0 read, 1
+	// write) and the state of the deadline of that direction when it started (0 none, 1 past, 2 future)
+	afterOps [][2]int
+}
+
+// cancelInside fires the cancellation of the case from inside an I/O operation (d.mu held) and
+// waits for the watcher.
+func (d *duplex) cancelInside() {
+	d.fired = true
+	d.muted = true
+	fire := d.fire
+	d.mu.Unlock()
+	if fire != nil {
+		fire()
+	}
+	for end := time.Now().Add(time.Second); time.Now().Before(end); {
+		d.mu.Lock()
+		ok := d.expired(false) && d.expired(true)
+		d.mu.Unlock()
+		if ok {
+			break
+		}
+		time.Sleep(time.Millisecond)
+	}
+	d.mu.Lock()
+}
+
+func (d *duplex) noteOp(wr bool) {
+	if !d.fired {
+		return
+	}
+	t, dir := d.rdl, 0
+	if wr {
+		t, dir = d.wdl, 1
+	}
+	st := 2
+	switch {
+	case t.IsZero():
+		st = 0
+	case t.Before(time.Now()):
+		st = 1
+	}
+	d.afterOps = append(d.afterOps, [2]int{dir, st})
 }
 
 // peerEnd is the peer's end of the connection (a net.Conn, so a TLS server can run on it).
@@ -104,6 +161,10 @@ func (p peerEnd) Write(b []byte) (int, error) {
 	if d.eof {
 		return 0, errPeerDone
 	}
+	if d.muted {
+		// the peer is silent: nothing of this reaches the library
+		return len(b), nil
+	}
 	if d.budget >= 0 && d.sent+len(b) > d.budget {
 		k := d.budget - d.sent
 		d.in = append(d.in, b[:k]...)
@@ -127,7 +188,7 @@ func (p peerEnd) SetReadDeadline(t time.Time) error  { return nil }
 func (p peerEnd) SetWriteDeadline(t time.Time) error { return nil }
 
 func newDuplex() *duplex {
-	d := &duplex{failRd: -1, failWr: -1, budget: -1, notify: make(chan struct{}, 1)}
+	d := &duplex{failRd: -1, failWr: -1, cancelRd: -1, cancelWr: -1, budget: -1, notify: make(chan struct{}, 1)}
 	d.cond = sync.NewCond(&d.mu)
 	return d
 }
@@ -152,6 +213,7 @@ func (d *duplex) Read(p []byte) (int, error) {
 	defer d.mu.Unlock()
 	idx := d.reads
 	d.reads++
+	d.noteOp(false)
 	if idx == d.failRd {
 		return 0, c01.InjErr(d.errKind, errInjected)
 	}
@@ -169,6 +231,9 @@ func (d *duplex) Read(p []byte) (int, error) {
 	}
 	n := copy(p, d.in)
 	d.in = d.in[n:]
+	if idx == d.cancelRd {
+		d.cancelInside()
+	}
 	return n, nil
 }
 
@@ -177,6 +242,7 @@ func (d *duplex) Write(p []byte) (int, error) {
 	defer d.mu.Unlock()
 	idx := d.writes
 	d.writes++
+	d.noteOp(true)
 	if idx == d.failWr {
 		return 0, c01.InjErr(d.errKind, errInjected)
 	}
@@ -185,6 +251,9 @@ func (d *duplex) Write(p []byte) (int, error) {
 	}
 	d.out = append(d.out, p...)
 	d.cond.Broadcast()
+	if idx == d.cancelWr {
+		d.cancelInside()
+	}
 	return len(p), nil
 }
 
@@ -223,6 +292,9 @@ type hsResult struct {
 	reads   int
 	writes  int
 	cutHit  bool
+	// inside-cancellation cases: the cancellation point was reached; the operations started after it
+	fired    bool
+	afterOps [][2]int
 }
 
 // play runs one handshake. budget: bytes the peer may send before its stream ends (-1:
@@ -237,6 +309,13 @@ func play(h handshake, budget, failRd, failWr, cancelAt int) hsResult {
 	ctx, cancel, release := c01.MakeCtx(h.ctx)
 	defer release()
 	d.budget = budget
+	d.fire = cancel
+	switch h.inside {
+	case 'r':
+		d.cancelRd = h.insideAt
+	case 'w':
+		d.cancelWr = h.insideAt
+	}
 	var peerWG sync.WaitGroup
 	peerWG.Add(1)
 	go func() {
@@ -323,6 +402,7 @@ func play(h handshake, budget, failRd, failWr, cancelAt int) hsResult {
 	peerWG.Wait()
 	d.mu.Lock()
 	res.sent, res.reads, res.writes, res.cutHit = d.sent, d.reads, d.writes, d.cutHit
+	res.fired, res.afterOps = d.fired, append([][2]int(nil), d.afterOps...)
 	d.mu.Unlock()
 	return res
 }
@@ -505,6 +585,11 @@ func emitHS(r *common.Run, h handshake, kind string, n int, res hsResult) {
 		r.Fail("harness", "real-handshake-not-clean:"+h.name, lines, "the fault-free handshake fails: "+res.err)
 	case !isClean(kind) && res.outcome == "done":
 		r.Fail("fail-closed", "real:"+h.name+":"+kind, lines, fmt.Sprintf("fault %s %d: session establishment returned a nil error", kind, n))
+	case !isClean(kind) && res.ready && res.fired && len(res.afterOps) == 0:
+		// the cancellation arrived inside the very last I/O operation of the handshake: every
+		// step had succeeded, the last feature's own mask supplied the ready bit (the exception
+		// of C04_fail_not_ready) and negotiateSession's context check turned the result into an
+		// error. Not a violation.
 	case !isClean(kind) && res.ready:
 		r.Fail("fail-closed", "real-ready-on-error:"+h.name+":"+kind, lines, "session establishment failed ("+res.err+") but the ready bit is set")
 	}
@@ -666,6 +751,9 @@ func playKind(h handshake, kind string, n int) hsResult {
 		return play(h, -1, -1, n, -1)
 	case "cancel":
 		return play(h, -1, -1, -1, n)
+	case "crd", "cwr":
+		h.inside, h.insideAt = kind[1], n
+		return play(h, -1, -1, -1, -1)
 	case "cleanb":
 		h.chunk = 1
 		return play(h, -1, -1, -1, -1)
@@ -771,6 +859,28 @@ func runReal(r *common.Run) {
 				emit("cancel."+string(k), j, play(hk, -1, -1, -1, j))
 			}
 		}
+		// cancellation inside every Read / Write that itself completes; the peer is silent
+		// afterwards: the next operation of the library - wherever it is, also inside a
+		// feature's own step - must find the watcher's deadline
+		for _, dir := range []string{"crd", "cwr"} {
+			cnt := clean.reads
+			if dir == "cwr" {
+				cnt = clean.writes
+			}
+			for k := 0; k < cnt; k++ {
+				for _, ck := range []string{"", ".d", ".p"} {
+					if c01.SkipForStalls() {
+						continue
+					}
+					if ck != "" && r.Quick() && (k+int(r.Seed))%3 != 0 {
+						continue
+					}
+					if res := playKind(h, dir+ck, k); res.fired {
+						emit(dir+ck, k, res)
+					}
+				}
+			}
+		}
 		// the same handshake over a real net.Pipe: cancellation while blocked in each write
 		// (the peer stops reading) and while blocked in a read before each peer step
 		pc := playPipe(h, -1, -1)
@@ -810,5 +920,5 @@ func runReal(r *common.Run) {
 			}
 		}
 	}
-	r.Exhaustive = append(r.Exhaustive, "each with both spellings of the peer's empty elements (<x/> and <x></x>): real SASL PLAIN + bind (initiator TCP, initiator WebSocket, receiver) and component handshakes: every byte prefix of the peer's stream (thorough; every 7th in quick), every failing Read, every failing Write (each with the kinds of error value of c01.ErrKinds: time-out with a live context, temporary, closed, context / EOF sentinels), a byte-by-byte peer with every failing read (= every byte position), cancellation before every peer step (contexts: WithCancel, far deadline + cancel, cancelled parent, near deadline expiring); and over a real net.Pipe: cancellation while blocked in each write (peer stops reading) and in a read before each peer step")
+	r.Exhaustive = append(r.Exhaustive, "each with both spellings of the peer's empty elements (<x/> and <x></x>): real SASL PLAIN + bind (initiator TCP, initiator WebSocket, receiver) and component handshakes: every byte prefix of the peer's stream (thorough; every 7th in quick), every failing Read, every failing Write (each with the kinds of error value of c01.ErrKinds: time-out with a live context, temporary, closed, context / EOF sentinels), a byte-by-byte peer with every failing read (= every byte position), cancellation before every peer step (contexts: WithCancel, far deadline + cancel, cancelled parent, near deadline expiring), cancellation inside every Read and every Write that itself completes, the peer silent afterwards (crd / cwr: the instant between two I/O operations, also those of a feature's own step); and over a real net.Pipe: cancellation while blocked in each write (peer stops reading) and in a read before each peer step")
 }
